@@ -29,7 +29,7 @@ func cloneImage(m map[string]map[string][]byte) map[string]map[string][]byte {
 	for b, kv := range m {
 		c := make(map[string][]byte, len(kv))
 		for k, v := range kv {
-			c[k] = append([]byte(nil), v...)
+			c[k] = append([]byte{}, v...)
 		}
 		out[b] = c
 	}
@@ -44,7 +44,7 @@ func NewModel() *Model {
 func (m *Model) HasBucket(b string) bool { return m.Current[b] != nil }
 func (m *Model) Create(b string)         { m.Current[b] = map[string][]byte{} }
 func (m *Model) Put(b, k string, v []byte) {
-	m.Current[b][k] = append([]byte(nil), v...)
+	m.Current[b][k] = append([]byte{}, v...) // present keys have non-nil values, also when empty
 }
 func (m *Model) Delete(b, k string)     { delete(m.Current[b], k) }
 func (m *Model) Get(b, k string) []byte { return m.Current[b][k] }
